@@ -238,10 +238,32 @@ impl Entities {
     ) -> Result<Self> {
         let checker = schema.map(|schema| EntitySchemaConformanceChecker::new(schema, extensions));
         let mut entities_touched: HashSet<EntityUID> = HashSet::new();
+        // An entity named more than once in `collection` takes its last value
+        // (as before). Only that last value is applied: the stale-edge
+        // stripping below is only correct if every UID is overwritten at most
+        // once per call. A second overwrite of `uid` would strip the ancestors
+        // of the *first replacement* and skip descendants that no longer list
+        // `uid` after the first strip, leaving stale indirect ancestors.
+        let mut batch: Vec<Arc<Entity>> = Vec::new();
+        let mut position: HashMap<EntityUID, usize> = HashMap::new();
         for entity in collection.into_iter() {
             if let Some(checker) = checker.as_ref() {
                 checker.validate_entity(&entity)?;
             }
+            match position.entry(entity.uid().clone()) {
+                hash_map::Entry::Occupied(pos) => {
+                    // `position` only holds indices of elements pushed to `batch`
+                    if let Some(slot) = batch.get_mut(*pos.get()) {
+                        *slot = entity;
+                    }
+                }
+                hash_map::Entry::Vacant(pos) => {
+                    pos.insert(batch.len());
+                    batch.push(entity);
+                }
+            }
+        }
+        for entity in batch {
             let uid = entity.uid().clone();
             // If overwriting an existing entity, strip stale TC edges from its descendants
             if let Some(old_entity) = self.entities.get(&uid) {
